@@ -65,7 +65,7 @@ func genC38Tracker(t *rapid.T) c38Case {
 }
 
 func genC38(t *rapid.T) c38Case {
-	if c38LedgerEnabled && rapid.IntRange(0, 99).Draw(t, "mode") < c38LedgerPercent() {
+	if c38LedgerEnabled && c38DrawLedger(t) {
 		return genC38Ledger(t)
 	}
 	return genC38Tracker(t)
